@@ -1,4 +1,5 @@
 pub mod c01;
+pub mod c01_gen;
 pub mod c02;
 pub mod c02_gen;
 pub mod c03;
